@@ -98,8 +98,16 @@ func runC04Case(run *ev.Run, cs c04Case) {
 	var rmu sync.Mutex
 	base := time.Now() // t_before_Attack
 	p := &recPacer{base: base}
+	var atkRef atomic.Pointer[vegeta.Attacker]
 	p.decide = func(i int, _ time.Duration, _ uint64) (time.Duration, bool) {
 		if cs.StopAt > 0 && i >= cs.StopAt {
+			if i == cs.StopAt+1000 {
+				// an attack that keeps consulting a pacer that said stop a thousand times will not end
+				// by itself: end it from outside, the recorded calls are judged below (paced-after-stop)
+				if a := atkRef.Load(); a != nil {
+					go a.Stop()
+				}
+			}
 			return 0, true
 		}
 		switch cs.Pacer {
@@ -131,6 +139,7 @@ func runC04Case(run *ev.Run, cs c04Case) {
 	}
 	tg := &recTargeter{targets: defaultTargets()}
 	atk := vegeta.NewAttacker(vegeta.Client(&http.Client{Transport: rt}), vegeta.Workers(cs.Workers), vegeta.MaxWorkers(cs.Max))
+	atkRef.Store(atk)
 	results := atk.Attack(tg.Targeter(), p, cs.Duration, "c04")
 	tAfter := time.Since(base) // Attack has returned: the attack's start instant lies in [0, tAfter]
 
@@ -380,14 +389,27 @@ func runC04Dual(run *ev.Run, cs c04Case) {
 		done      chan struct{}
 		n         int
 	}
+	var atkRef atomic.Pointer[vegeta.Attacker]
 	mk := func(name string, stopAt int) *one {
 		o := &one{name: name, p: &recPacer{base: base}, done: make(chan struct{})}
-		o.p.decide = func(i int, _ time.Duration, _ uint64) (time.Duration, bool) { return cs.WaitNs, i >= stopAt }
+		o.p.decide = func(i int, _ time.Duration, _ uint64) (time.Duration, bool) {
+			if i == stopAt+200 {
+				// consulted 200 times after it said stop: this attack will not end by itself
+				if a := atkRef.Load(); a != nil {
+					go a.Stop()
+				}
+			}
+			if i >= stopAt {
+				return 0, true
+			}
+			return cs.WaitNs, false
+		}
 		return o
 	}
 	a, b := mk("first", cs.StopAt), mk("second", cs.StopAt/2+1)
 	rt := &recTransport{base: base}
 	atk := vegeta.NewAttacker(vegeta.Client(&http.Client{Transport: rt}), vegeta.Workers(cs.Workers), vegeta.MaxWorkers(cs.Max))
+	atkRef.Store(atk)
 	start := func(o *one) {
 		tg := &recTargeter{targets: defaultTargets()}
 		o.pre = time.Since(base)
@@ -434,6 +456,10 @@ func runC04Dual(run *ev.Run, cs c04Case) {
 		for i, r := range recs {
 			if o == a && r.TCall > b.post {
 				overlapped = true
+			}
+			if r.Stop && i != len(recs)-1 {
+				viol("paced-after-stop", fmt.Sprintf("Pace call #%d said stop but %d more calls followed", i, len(recs)-1-i), i)
+				break
 			}
 			if r.Hits != uint64(i) {
 				viol("pace-hits-arg", fmt.Sprintf("Pace call #%d was told hits=%d", i, r.Hits), i)
